@@ -124,6 +124,13 @@ def symbolic_pool(cls: str, prefix: str = "p") -> Dict[str, V]:
 SHARED_IMMUTABLE = ("clsname",)
 
 
+def start_group_name(k):
+    """'start-group-<k>' (documented pattern of SimpleTaskPool.start)"""
+    from pyvc import sym
+
+    return sym.str_concat(["start-group-", StrV(sym.itos(k))]).t
+
+
 # ------------------------------------------------------------------------------------------------------
 # The pool invariant (DESIGN 3.3).  Each clause: (name, formula, properties it serves)
 # ------------------------------------------------------------------------------------------------------
@@ -180,8 +187,8 @@ def inv_clauses(sh, simple: bool = False) -> List[Tuple[str, z3.ExprRef, Tuple[s
     if simple:
         sc = sh["_start_calls"].t
         k = z3.Int("k!q")
-        cl.append(("I13.start-group-names", z3.And(sc >= 0, z3.ForAll([g], z3.Implies(z3.Or(p.G.has(g), p.M.has(g)), z3.Exists([k], z3.And(0 <= k, k < sc, g == z3.Concat(z3.StringVal("start-group-"), z3.IntToStr(k))))))), ("C10",)))
-        cl.append(("I13b.spawner-group-names", z3.ForAll([t], z3.Implies(z3.And(p.is_spawner(t), lt != L_DONE), z3.Exists([k], z3.And(0 <= k, k < sc, sel(p.grp, t) == z3.Concat(z3.StringVal("start-group-"), z3.IntToStr(k)))))), ("C10",)))
+        cl.append(("I13.start-group-names", z3.And(sc >= 0, z3.ForAll([g], z3.Implies(z3.Or(p.G.has(g), p.M.has(g)), z3.Exists([k], z3.And(0 <= k, k < sc, g == start_group_name(k)))))), ("C10",)))
+        cl.append(("I13b.spawner-group-names", z3.ForAll([t], z3.Implies(z3.And(p.is_spawner(t), lt != L_DONE), z3.Exists([k], z3.And(0 <= k, k < sc, sel(p.grp, t) == start_group_name(k))))), ("C10",)))
     return cl
 
 
@@ -244,6 +251,7 @@ class PoolTheory(Theory):
         if me_kind is not None:
             st.assume(z3.Select(p.kind, st.me) == me_kind)
         self.container_facts(st)
+        st.aux["string_axioms_at"] = len(st.pc)
         if assume_inv:
             for _n, f, _p in self.inv(st.sh):
                 st.assume(f)
@@ -741,6 +749,8 @@ class PoolTheory(Theory):
                  "pool.SimpleTaskPool._start_num": K_START}
         if q not in kinds:
             raise Unsupported(f"create_task({q})")
+        if getattr(self, "before_create_task", None) is not None and kinds[q] == K_WRAPPER:
+            self.before_create_task(st)
         t = fresh("newtask", Ref)
         p = PView(st)
         st.assume(z3.And(t != NONE, t != st.me, z3.Select(p.kind, t) == K_NONE))
@@ -841,17 +851,24 @@ class PoolTheory(Theory):
                         out.append((r, BoolV(True)))
                 elif how == "cancelled-pending":
                     r.assume(creq)
-                    self.set_ghost(r, "creq", r.me, z3.BoolVal(False))
+                    self.mark_delivered(r)
                     if ip.feasible(r):
                         out.append((r, Exit(Exit.RAISE, self.delivered_cancel())))
                 else:
                     r.assume(z3.And(creq, cur.g >= 1))
-                    self.set_ghost(r, "creq", r.me, z3.BoolVal(False))
+                    self.mark_delivered(r)
                     n = self._mk_sem(cur, g=cur.g - 1, v=cur.v.add(1))
                     ip.place_set(r, place, self.sem_wake_next(n))
                     if ip.feasible(r):
                         out.append((r, Exit(Exit.RAISE, self.delivered_cancel())))
         return out
+
+    def mark_delivered(self, st: St) -> None:
+        """a pending request is delivered as CancelledError.  For wrappers the flag is cleared (a later
+        request is a new one); a spawner keeps it (it must end without suspending again, checked at every
+        later suspension by `no-suspension-after-cancellation`)."""
+        p = PView(st)
+        self.set_ghost(st, "creq", st.me, p.is_spawner(st.me))
 
     def delivered_cancel(self) -> ExcV:
         e = ExcV("CancelledError", [])
@@ -860,6 +877,8 @@ class PoolTheory(Theory):
 
     def suspend(self, st, fr, label, node, newloc=None):
         """a real suspension of the executing thread"""
+        p = PView(st)
+        self.ip.require(st, f"no-suspension-after-cancellation@{label}", z3.Not(z3.And(p.is_spawner(st.me), z3.Select(p.creq, st.me))), ("C07",))
         self.observe(st, f"{fr.qual.split('.')[-1]}@{label}", newloc)
 
     # --- await -----------------------------------------------------------------------------------------------
